@@ -43,6 +43,76 @@ def to_obj_short(t, L):
     return getattr(L, CLASSNAME[t[0]])(*kids)
 
 
+PICKLE_TREES = [('ap', 'p'), ('ap', 'x_1'), 'tt', ('not', ('ap', 'p')), ('or', ('ap', 'p'), ('ap', 'q')),
+                ('and', ('ap', 'p'), ('not', ('ap', 'q')), 'ff'), ('imp', ('ap', 'p'), ('or', ('ap', 'q'), ('ap', 'p')))]
+
+
+def _pickle_child(mode):
+    """child interpreter with its own PYTHONHASHSEED: `dump` builds the formulas of every logic, hashes them, uses them as
+    keys, and prints their pickles; `load` reads the pickles and compares each with a freshly built formula"""
+    import base64
+    import json
+    import pickle
+    import sys
+    if mode == 'dump':
+        out = {}
+        for M in ('PL', 'CTL', 'LTL', 'CTLS'):
+            objs = [to_obj(t, lang(M)) for t in PICKLE_TREES]
+            for o in objs:
+                hash(o)
+            _ = set(objs)
+            out[M] = base64.b64encode(pickle.dumps(objs)).decode()
+        print(json.dumps(out))
+    else:
+        data = json.load(sys.stdin)
+        bad = []
+        for M, blob in data.items():
+            objs = pickle.loads(base64.b64decode(blob))
+            for t, o in zip(PICKLE_TREES, objs):
+                g = to_obj(t, lang(M))
+                if from_obj(o) != t:
+                    bad.append([M, str(t), 'the unpickled formula has another tree'])
+                elif not (o == g and g == o):
+                    bad.append([M, str(t), 'the unpickled formula is not == to a fresh formula with the same tree'])
+                elif hash(o) != hash(g):
+                    bad.append([M, str(t), 'the unpickled formula == a fresh one but hashes differently'])
+                elif g not in {o} or o not in {g: 1} or hash(o.clone()) != hash(o):
+                    bad.append([M, str(t), 'the unpickled formula and a fresh equal one are two keys in a set / dict'])
+        print(json.dumps(bad))
+
+
+def pickle_stream(res):
+    """formulas hashed and pickled by one interpreter, loaded by another with a different PYTHONHASHSEED (the default
+    situation of any later run): equal formulas must still have equal hashes there"""
+    import json
+    import os
+    import subprocess
+    import sys
+    here = os.path.dirname(os.path.dirname(os.path.abspath(__file__)))
+    cmd = 'import sys; sys.path.insert(0, %r); from checks import c11; c11._pickle_child(%%r)' % here
+    env = dict(os.environ, PYTHONPATH=os.pathsep.join(x for x in sys.path if x))
+    n = 0
+    for s1, s2 in (('101', '202'), ('7', '7'), ('0', '12345')):
+        d = subprocess.run([sys.executable, '-c', cmd % 'dump'], stdout=subprocess.PIPE, stderr=subprocess.PIPE, text=True,
+                           env=dict(env, PYTHONHASHSEED=s1))
+        if d.returncode != 0:
+            res.violation('formulas cannot be pickled: ' + d.stderr[-300:], {'history': 'pickle.dumps(list of formulas)'})
+            return 0
+        l = subprocess.run([sys.executable, '-c', cmd % 'load'], input=d.stdout.strip().splitlines()[-1], stdout=subprocess.PIPE,
+                           stderr=subprocess.PIPE, text=True, env=dict(env, PYTHONHASHSEED=s2))
+        if l.returncode != 0:
+            res.violation('pickled formulas cannot be loaded: ' + l.stderr[-300:], {'history': 'pickle.loads in another interpreter'})
+            return 0
+        bad = json.loads(l.stdout.strip().splitlines()[-1])
+        n += 4 * len(PICKLE_TREES)
+        for M, t, what in bad[:2]:
+            res.violation('%s (%s): %s — hashed and pickled under PYTHONHASHSEED=%s, loaded under PYTHONHASHSEED=%s'
+                          % (what, M, t, s1, s2),
+                          {'logic': M, 'tree': t, 'history': ['PYTHONHASHSEED=%s: build, hash, pickle.dumps' % s1,
+                                                              'PYTHONHASHSEED=%s: pickle.loads, compare with a fresh formula' % s2]})
+    return n
+
+
 def run(res):
     rng = rng_for('C11')
     quick = res.tier == 'quick'
@@ -172,6 +242,16 @@ def run(res):
                 viol.append(('Bool(%s) == %s does not hold in both directions' % (bval, bval), M, None, None))
             if hash(B) != hash(L.Bool(bval)):
                 viol.append(('hash of Bool not stable', M, None, None))
+    pickled = pickle_stream(res)
+    # copy / deepcopy in process
+    import copy
+    for M in ('PL', 'CTL', 'LTL', 'CTLS'):
+        for t in PICKLE_TREES:
+            o = to_obj(t, lang(M))
+            hash(o)
+            for how, c in (('copy.copy', copy.copy(o)), ('copy.deepcopy', copy.deepcopy(o))):
+                if from_obj(c) != t or not (c == o and o == c) or hash(c) != hash(o) or c not in {o}:
+                    viol.append(('%s of a formula is not an equal key' % how, M, t, t))
     model = lean_batch(lines)
     bad = 0
     for d, a, m in zip(descr, impl, model):
@@ -193,6 +273,7 @@ def run(res):
                 'look like operator prefixes: AX, Xp, nota), sampled triples for transitivity; distinct_nontrivial = '
                 'pairs that compare equal',
         'direct_oracle_violations': len(viol), 'disagreements': bad,
+        'pickled_across_hash_seeds': pickled,
         'samples': [{'op': lines[i], 'impl': impl[i], 'model': model[i]} for i in (1, len(lines) // 2)],
         'traces_validated_against_impl': len(lines),
     })
